@@ -77,11 +77,34 @@ func c06CheckEscape(ctx *Ctx, res *Result, inputs []string) {
 var c06SummaryRe = regexp.MustCompile(`(?m)^(?:(\d+) errors?)?(?:, | and )?(?:(\d+) warnings?)?(?: and )?(?:(\d+) notes?)? found\.$`)
 
 // c06CheckRealOutput evaluates the C06 statements on what the real Logger printed for a script.
+var c06Shrunk = map[string]int{}
+
 func c06CheckRealOutput(res *Result, s lgScript, r pkglint.VerifLoggerResult) {
 	if r.Panic != "" {
 		return
 	}
 	viol := func(key, what string) {
+		c06Shrunk[key]++
+		if c06Shrunk[key] <= 2 && len(s.Events) > 1 {
+			// shrink: drop events while the same statement keeps failing on the real Logger
+			has := func(t lgScript) (string, bool) {
+				tmp := &Result{}
+				c06Shrunk[key] += 1000 // no nested shrinking
+				c06CheckRealOutput(tmp, t, pkglint.VerifLoggerScript(t.Opts, t.Lines, t.Events))
+				c06Shrunk[key] -= 1000
+				for _, v := range tmp.Violations {
+					if v.Key == key {
+						return v.What, true
+					}
+				}
+				return "", false
+			}
+			small := lgShrink(s, func(t lgScript) bool { _, ok := has(t); return ok })
+			if w, ok := has(small); ok {
+				res.AddViolation(Violation{Key: key, What: w, FoundInput: true, Size: lgSize(small), Replay: lgReplayMap("logger-c06", small, nil)})
+				return
+			}
+		}
 		res.AddViolation(Violation{Key: key, What: what, FoundInput: true, Size: lgSize(s), Replay: lgReplayMap("logger-c06", s, nil)})
 	}
 	for _, out := range []string{r.Stdout, r.Stderr} {
